@@ -54,6 +54,10 @@ def run(tier, replay=None):
         if e["ev"] == "hdr":
             hdr = e
         hdr_at[i] = hdr
+    undec = [(e["asset"], e["rep"], e["cfg"], e["decErr"]) for e in events if e["ev"] == "hdr" and e.get("drm") and e.get("decErr")]
+    if undec:
+        raise MachineryError(f"DRM scenarios could not be decrypted by the recorder (no verdict possible): {undec[:3]}")
+    c.extra["drm_scenarios"] = sum(1 for e in events if e["ev"] == "hdr" and e.get("drm"))
     machinery = []
     for f in vlib.bad_to_failures(r, events):
         if f["clause"].startswith(("trace.", "hdr.")):
